@@ -130,7 +130,10 @@ class World:
         schedule.promote = types.SimpleNamespace(more=lambda: False)
         dawgie.tools.submit.already_applied = lambda cs, repo: False
         dawgie.tools.submit.mail_out = lambda *a, **k: None
-        state.RollbackImporter = lambda: types.SimpleNamespace(reload=lambda: None)
+        self.real_rollback = state.RollbackImporter     # used by the real-reload part only
+        self.stub_rollback = lambda: types.SimpleNamespace(reload=lambda: None)
+        state.RollbackImporter = self.stub_rollback
+        dawgie.context._rev = lambda: 'deadbeef'
         # the deferred chains of Process.step_0 and VerifyHandler: reactor.callLater / spawnProcess recorded
         import twisted.internet.error
         import twisted.internet.reactor as reactor
@@ -139,7 +142,13 @@ class World:
         reactor.callLater = lambda delay, fn, *a, **k: self.later.append((fn, a, k))
         reactor.spawnProcess = lambda proto, *a, **k: self.spawned.append(proto)
 
-        def automatic(**kw):   # git work of step_2 succeeds and spawns the compliance process
+        self.automatic_mode = 'ok'
+
+        def automatic(**kw):   # the git work of step_2: succeeds and spawns the compliance process, or fails
+            if self.automatic_mode == 'failed':
+                return dawgie.tools.submit.State.FAILED
+            if self.automatic_mode == 'raise':
+                raise RuntimeError('git checkout failed')
             kw['spawn'](['python', '-m', 'dawgie.tools.compliant'])
             return dawgie.tools.submit.State.SUCCESS
 
@@ -496,19 +505,34 @@ class World:
                 d.addErrback(lambda f: None)
         return err
 
-    def ev_chain(self, which, submission='todo_empty', changeset='abc123', allow_overlap=False):
-        """the real deferred chain of Process.step_0 (step_1, step_2 with git stubbed, and for the legacy
-        endpoint step_3) run as one reactor turn"""
+    def ev_chain(self, which, submission='todo_empty', changeset='abc123', allow_overlap=False, step2='ok'):
+        """the real deferred chain of Process.step_0 (step_1, step_2 with git stubbed - succeeding, returning
+        FAILED or raising - and for the legacy endpoint step_3) run as one reactor turn"""
         self._begin()
         if self._busy(which, allow_overlap):
             return self._end('trigger')
         sub = self._new_sub(which, changeset, submission)
         n = len(self.spawned)
-        self._guarded(sub.proc.step_0)
-        self._run_later()
+        self.automatic_mode = step2
+        try:
+            self._guarded(sub.proc.step_0)
+            self._run_later()
+        finally:
+            self.automatic_mode = 'ok'
         if len(self.spawned) > n:
             sub.handler = self.spawned[-1]
-        return self._end('trigger')
+        o = self._end('trigger')
+        if sub.passed_step1 and not sub.over and sub.handler is None and not self.later \
+                and self.fsm.state == 'gitting':
+            # "submit and back": nothing is left that could ever call step_3 or failure for this submission
+            self.violations.append((
+                'C10:submit-not-back',
+                f'the submission on the {sub.endpoint} endpoint entered gitting, its step_2 '
+                f'{"returned FAILED" if step2 == "failed" else "raised" if step2 == "raise" else "ended"} and the '
+                f'deferred chain is over, but nobody fired running_trigger: the life-cycle stays in gitting '
+                f'(request answered: {bool(sub.proc.__dict__.get("_Process__request") is None)})'))
+            sub.over = True
+        return o
 
     def ev_process_ended(self, ok=True):
         """the compliance process of the oldest submission with a VerifyHandler ends"""
@@ -583,9 +607,17 @@ class World:
         return False
 
     def ev_reset(self, archive):
+        snap = self.snapshot()
         self._begin()
         self._guarded(lambda: self.api.cmd_reset(['true' if archive else 'false']))
-        return self._end('trigger')
+        o = self._end('trigger')
+        if o['outcome'] == 'refused' and self.snapshot() != snap:
+            after = self.snapshot()
+            self.violations.append((
+                'C10:refused-reset-had-effect',
+                f'the reset request (archive={bool(archive)}) was refused in {snap["state"]}/{snap["tr"]} (no trigger '
+                f'fired) but changed { {k: (snap[k], after[k]) for k in snap if snap[k] != after[k]} }'))
+        return o
 
     def run_rec(self, rec, reopen=False):
         """run the captured thunk, then fire the Deferred the way deferToThread would"""
